@@ -304,6 +304,12 @@ func checkC16(x *X, c *Case, strict bool) *Outcome {
 	}
 	if hasLR {
 		o.Tags = append(o.Tags, "left_recursive")
+		if diverges {
+			// the reference re-evaluates nested left-recursive rules where pigeon re-uses the
+			// memoized result of a leader: running out of the reference's step budget says
+			// nothing about the parser here
+			return &Outcome{Discard: true}
+		}
 	}
 	for _, pk := range livePkgs(x.G) {
 		if hasLR && pk.Optimized {
